@@ -575,9 +575,23 @@ func (c *ctx) engineCase(a, b Schema, desc string, o engineOpts) {
 
 func runEngine(c *ctx) {
 	c.w.Rule = "a case is non-trivial when the real differ reports a non-empty change list between the inspected current database and the desired schema; distinct by that list"
-	n := 1200
+	n := 1000
 	if c.thorough {
 		n = 6000
+	}
+	// populated databases: generator restricted to defaults / unique indexes whose row effect the engine model evaluates
+	pg := &G{r: c.r, plain: true}
+	np := n / 4
+	for i := 0; i < np; i++ {
+		a, b, d := pg.pair()
+		if d == "unrelated" || strings.Contains(d, "mod-col-type") || !simpleDefaults(b) || !simpleDefaults(a) {
+			continue
+		}
+		o := engineOpts{file: i%3 == 0, fk: i%2 == 0, withModel: true}
+		for _, t := range a.Tables {
+			o.rows = append(o.rows, genRows(pg, t)...)
+		}
+		c.engineCase(a, b, d+"+rows", o)
 	}
 	for i := 0; i < n; i++ {
 		a, b, d := c.g.pair()
